@@ -10,6 +10,7 @@ import (
 	"go/token"
 	"go/types"
 	"math"
+	"net"
 	"os"
 	"strconv"
 	"strings"
@@ -879,6 +880,31 @@ func init() {
 		}
 		return tuple{wrapK(types.Int64, acc), iface{}}
 	}
+	// net.ParseCIDR on a concrete string: computed by the host, returned as
+	// ordinary net.IP / *net.IPNet values (Contains etc. are interpreted).
+	natives["net.ParseCIDR"] = func(fr *frame, a []value) value {
+		str, ok := a[0].(string)
+		if !ok {
+			unsupported("net.ParseCIDR of a symbolic string")
+		}
+		ip, ipn, err := net.ParseCIDR(str)
+		if err != nil {
+			return tuple{[]value(nil), (*value)(nil), fr.i.mkError(err.Error())}
+		}
+		var st value = structure{bytesVal(ipn.IP), bytesVal(ipn.Mask)}
+		return tuple{bytesVal(ip), &st, iface{}}
+	}
+	natives["net.ParseIP"] = func(fr *frame, a []value) value {
+		str, ok := a[0].(string)
+		if !ok {
+			unsupported("net.ParseIP of a symbolic string")
+		}
+		ip := net.ParseIP(str)
+		if ip == nil {
+			return []value(nil)
+		}
+		return bytesVal(ip)
+	}
 	// ---------------- tracing ----------------
 	startSpan := func(fr *frame, a []value) value {
 		tp := fr.i.prog.ImportedPackage("go.opentelemetry.io/otel/trace")
@@ -928,6 +954,33 @@ func init() {
 }
 
 func noop(fr *frame, a []value) value { return nil }
+
+func init() {
+	// package net is not initialised (resolver configuration etc.); the address
+	// constants that pure functions such as IP.IsLoopback rely on are set here.
+	pkgInitHooks["net"] = func(i *interpreter, pkg *ssa.Package) {
+		set := func(name string, ip net.IP) {
+			if g, ok := pkg.Members[name].(*ssa.Global); ok {
+				var cell value = bytesVal(ip)
+				i.globals[g] = &cell
+			}
+		}
+		set("IPv4bcast", net.IPv4bcast)
+		set("IPv4allsys", net.IPv4allsys)
+		set("IPv4allrouter", net.IPv4allrouter)
+		set("IPv4zero", net.IPv4zero)
+		set("IPv6zero", net.IPv6zero)
+		set("IPv6unspecified", net.IPv6unspecified)
+		set("IPv6loopback", net.IPv6loopback)
+		set("IPv6interfacelocalallnodes", net.IPv6interfacelocalallnodes)
+		set("IPv6linklocalallnodes", net.IPv6linklocalallnodes)
+		set("IPv6linklocalallrouters", net.IPv6linklocalallrouters)
+		set("v4InV6Prefix", []byte{0, 0, 0, 0, 0, 0, 0, 0, 0, 0, 0xff, 0xff})
+		set("classAMask", net.IP(net.IPv4Mask(0xff, 0, 0, 0)))
+		set("classBMask", net.IP(net.IPv4Mask(0xff, 0xff, 0, 0)))
+		set("classCMask", net.IP(net.IPv4Mask(0xff, 0xff, 0xff, 0)))
+	}
+}
 
 func nativeLike(a, b value) value {
 	if !isSym(a) {
